@@ -8,7 +8,7 @@ def run(ctx):
     # also how a run ends other than by completion or limit: a doer raising, a keyboard interrupt, a failing enter
     exh = p3["exh"][:2] + p5["exh"][:2] + [e for e in p5["exh"] if e[0] in ("always", "fault", "ext-lim")] + \
         [e for e in c01.plan(ctx)["exh"] if e[0] in ("flat3-faults", "nest-faults")]
-    sim = [("big", p3["sim"][0][1], 300 if ctx.quick else 8000)]
+    sim = [("big", p3["sim"][0][1], 300 if ctx.quick else 24000)]
     sched.run_family(ctx, "C30", ["TypeOK", "EndExact"], exh=exh, sim=sim, keys=["full", "C01", "C02", "C03", "C05"], modes=("do", "ado"))
     return ctx.finish(rule=c03.RULE + "; every behaviour is run with Doist.do() and with asyncio.run(Doist.ado()) on fresh objects; "
                       "both complete event logs, final flags, tyme and forced exits must equal the model's (hence each other)",
